@@ -2,7 +2,31 @@
 from . import ssa, C20
 
 
+def _gamma_delay():
+    """the gamma delay of a reaction is the gamma sampler's own draw for the reaction's shape and scale (same stream)"""
+    import numpy as np
+    from bioscrape.types import Model
+    from bioscrape.random import py_seed_random, py_gamma_rv
+    bad = []
+    for k, th in ((2.5, 0.8), (1.4, 0.5), (3.0, 1.0), (7.5, 0.3)):
+        M = Model(species=["A", "B"], reactions=[(["A"], [], "massaction", {"k": 1.0}, "gamma", [], ["B"], {"k": k, "theta": th})],
+                  initial_condition_dict={"A": 5})
+        d = M.get_delays()[0]
+        params = np.array(M.get_parameter_values(), dtype=float)
+        for seed in (1, 2, 3):
+            py_seed_random(seed)
+            got = [d.py_get_delay(np.array([5.0, 0.0]), params) for _ in range(3)]
+            py_seed_random(seed)
+            want = [py_gamma_rv(k, th) for _ in range(3)]
+            if got != want:
+                bad.append("gamma delay (k=%s, theta=%s, seed %d) draws %s, gamma_rv(k, theta) on the same stream gives %s" % (k, th, seed, got, want))
+                break
+    return {"reproduced": bool(bad), "observed": bad[:2], "expected": "delay = gamma_rv(k, theta)"}
+
+
 def replay(spec):
+    if spec.get("kind") == "gamma_delay":
+        return _gamma_delay()
     if "op" in spec:
         return C20.replay(spec)
     return ssa.replay(spec)
